@@ -37,7 +37,7 @@ pub fn prop() -> Prop {
         stub: &["transport", "store", "glue", "random source", "Byzantine sender"],
         independent: &[],
         ref_sample: |_| 0,
-        required_probes: &["route_suite_crate_entry_points", "route_frost_core_generics", "kind_proof_response", "kind_proof_commitment", "kind_proof_other_identifier", "kind_proof_other_commitment", "kind_coeff_0", "kind_coeff_last", "kind_len_t_minus_1", "kind_len_t_plus_1", "kind_len_0", "kind_len_t_plus_65536", "kind_share_plus_1", "kind_share_zero", "kind_share_other_recipient", "kind_r1_under_own_id", "kind_r1_under_unknown_id", "kind_r1_missing", "kind_r1_surplus", "kind_r2_under_own_id", "kind_r2_missing", "kind_both_missing", "kind_both_surplus", "receiver_last_sender_checked"],
+        required_probes: &["route_suite_crate_entry_points", "route_frost_core_generics", "kind_proof_response", "kind_proof_commitment", "kind_proof_other_identifier", "kind_proof_other_commitment", "kind_proof_for_zero_key", "kind_coeff_0", "kind_coeff_last", "kind_len_t_minus_1", "kind_len_t_plus_1", "kind_len_0", "kind_len_t_plus_65536", "kind_share_plus_1", "kind_share_zero", "kind_share_other_recipient", "kind_r1_under_own_id", "kind_r1_under_unknown_id", "kind_r1_missing", "kind_r1_surplus", "kind_r2_under_own_id", "kind_r2_missing", "kind_both_missing", "kind_both_surplus", "receiver_last_sender_checked"],
         prepare: None,
     }
 }
@@ -246,6 +246,23 @@ fn exec_c<C: Suite>(scen: &Scenario) -> Exec {
                 };
                 if let Some(s2) = alt {
                     cases.push(("proof_commitment".into(), Step::Part2, Expect::Named, jid, with_r1(round1::Package::new(pkg_j.commitment().clone(), s2)), r2.clone()));
+                }
+            }
+            // a "proof" for the ZERO key: R = G*z with response z (what a refresh contribution, whose constant term is zero, honestly
+            // carries) attached to j's real commitment - it proves nothing about j's constant term
+            {
+                let mut zp = stream(scen.seed, scen.run, &format!("c08/zero_key_proof/{i}/{j}"));
+                let z = sc_random_nonzero::<C>(&mut zp);
+                if let Some(rb) = el_bytes::<C>(&base::<C>(z)) {
+                    let sb = proof.serialize().unwrap_or_default();
+                    let rl = sb.len() - sc_len::<C>();
+                    // the Taproot suite stores R x-only: take the even-Y representative's x (G*z or G*(-z), same x)
+                    let mut bytes: Vec<u8> = if rb.len() == rl { rb.clone() } else { rb[rb.len() - rl..].to_vec() };
+                    let zz = if rb.len() != rl && rb[0] == 0x03 { neg::<C>(z) } else { z };
+                    bytes.extend_from_slice(&sc_bytes::<C>(&zz));
+                    if let Ok(sig) = frost::Signature::<C>::deserialize(&bytes) {
+                        cases.push(("proof_for_zero_key".into(), Step::Part2, Expect::Named, jid, with_r1(round1::Package::new(pkg_j.commitment().clone(), sig)), r2.clone()));
+                    }
                 }
             }
             if let Some(k) = k_other {
